@@ -114,3 +114,17 @@ Definition chunk_ok (c : chunk) : bool := match c with Undecodable => true | Lin
 Definition paths (devs : list json) : list string :=
   flat_map (fun d => match d with JObj m => match jget m "path" with Some (JStr p) => [p] | _ => [] end | _ => [] end) devs.
 Definition devices_msg (devs : list json) : line := J (JObj [("class"%string, JStr "DEVICES"); ("devices"%string, JArr devs)]).
+
+(* _enable(): `self.enabled = False; while not self.enabled: data = recv(); if data: _parse_gpsd_msg(data)` over the
+   chunks the data socket delivers (a timeout or an empty read is no chunk). Returns the state reached and the chunks
+   NOT read; with the chunk list exhausted and the connection still not ready the real loop keeps waiting - here: the
+   state reached and nothing left. setup() then builds the command header from the selected device. *)
+Fixpoint enable_loop (s : gstate) (cs : list chunk) : res (gstate * list chunk) :=
+  match cs with
+  | [] => Ok (s, [])
+  | c :: t =>
+      match parse_chunk s c with
+      | Raise e => Raise e
+      | Ok s' => if g_enabled s' then Ok (s', t) else enable_loop s' t
+      end
+  end.
